@@ -85,8 +85,17 @@ def run_property(prop, tier, seed, jobs, wd, only=None, keep_logs=None, t0=None)
 
     def build(cfg):
         c = suites.CONFIGS[cfg]
+        # only generate code for the harnesses this run needs (codegen time grows with the count)
+        avail = {n: None for n in runner.source_harnesses(c["crate"])}
+        want = []
+        for cf, pats in suite:
+            if cf == cfg:
+                want += resolve(pats, avail)
+        if only:
+            want = [n for n in want if n in only.split(",")]
+        filt = sorted(set(want)) if 0 < len(set(want)) <= 80 else None
         metas, secs, _ = runner.codegen(wd, c["crate"], features=c["features"], rustflags=c["rustflags"],
-                                        cfg_miri=c["cfg_miri"], label=cfg)
+                                        cfg_miri=c["cfg_miri"], label=cfg, harness_filters=filt)
         return cfg, metas, secs
 
     with ThreadPoolExecutor(max_workers=4) as ex:
